@@ -36,6 +36,70 @@ def vtuple(s: str):
     return tuple(int(x) for x in s.split("."))
 
 
+def _protocol_when_version_none(ctx: Ctx, gw, getter, vattr: str, depth: int = 0):
+    """The version string the protocol getter hands to get_protocol while the stored version is None (derived layouts:
+    `get_protocol(self.v or D)`, `if self.v is None: return get_protocol(D)` ..., through zero-argument methods of the
+    gateway); None when the getter is not of such a shape."""
+    if getter is None or depth > 3:
+        return None
+    selfn = getter.positional_params[0] if getter.positional_params else "self"
+    vtxt = f"{selfn}.{vattr}"
+
+    def expr(e):
+        if isinstance(e, ast.Call) and isinstance(e.func, ast.Name) and e.func.id == "cast" and len(e.args) == 2:
+            return expr(e.args[1])
+        if isinstance(e, ast.Call) and norm(e.func).rsplit(".", 1)[-1] == "get_protocol" and len(e.args) == 1 and not e.keywords:
+            a = e.args[0]
+            if isinstance(a, ast.BoolOp) and isinstance(a.op, ast.Or) and len(a.values) == 2 and norm(a.values[0]) == vtxt:
+                a = a.values[1]
+            elif isinstance(a, ast.IfExp):
+                t = truth(a.test)
+                if t is None:
+                    return None
+                a = a.body if t else a.orelse
+            try:
+                v = ctx.folder.plain(ctx.folder.fold(getter.module, a))
+            except Exception:  # noqa: BLE001
+                return None
+            return v if isinstance(v, str) else None
+        if isinstance(e, ast.Call) and isinstance(e.func, ast.Attribute) and norm(e.func.value) == selfn and not e.args and not e.keywords:
+            m = gw.find_method(e.func.attr)
+            return _protocol_when_version_none(ctx, gw, m, vattr, depth + 1) if m is not None else None
+        if isinstance(e, ast.Attribute) and norm(e.value) == selfn:
+            m = gw.find_method(e.attr)
+            if m is not None and any(d.split("(")[0].rsplit(".", 1)[-1] == "property" for d in m.decorator_names):
+                return _protocol_when_version_none(ctx, gw, m, vattr, depth + 1)
+        return None
+
+    def truth(t):
+        if isinstance(t, ast.Compare) and len(t.ops) == 1 and norm(t.left) == vtxt and isinstance(t.comparators[0], ast.Constant) and t.comparators[0].value is None:
+            return isinstance(t.ops[0], ast.Is) if isinstance(t.ops[0], (ast.Is, ast.IsNot)) else None
+        if norm(t) == vtxt:
+            return False
+        if isinstance(t, ast.UnaryOp) and isinstance(t.op, ast.Not) and norm(t.operand) == vtxt:
+            return True
+        return None
+
+    def block(stmts):
+        for st in stmts:
+            if isinstance(st, ast.Expr) and isinstance(st.value, ast.Constant):
+                continue
+            if isinstance(st, ast.If):
+                t = truth(st.test)
+                if t is None:
+                    return None
+                r = block(st.body if t else st.orelse)
+                if r is not None or any(isinstance(x, ast.Return) for b in (st.body if t else st.orelse) for x in ast.walk(b)):
+                    return r
+                continue
+            if isinstance(st, ast.Return) and st.value is not None:
+                return expr(st.value)
+            return None
+        return None
+
+    return block(getter.node.body)
+
+
 def _stmt_index(fn: ast.AST, node: ast.AST) -> int:
     """Index of the top-level statement of fn that contains node (written-out code keeps the line numbers of its
     definition, so order is read off the statement list)."""
@@ -90,7 +154,7 @@ def table_v(ctx: Ctx, chk) -> None:
         rets_ = [n for n in ctx.own_nodes(getter) if isinstance(n, ast.Return) and n.value is not None] if getter is not None else []
         gc_ = Canon(I, getter).canon(rets_[0].value) if len(rets_) == 1 else ""
         any_store = any(isinstance(n, (ast.Assign, ast.AnnAssign)) and any(norm(t) == f"self.{sa_['protocol']}" for t in (n.targets if isinstance(n, ast.Assign) else [n.target])) for fl in gw.methods.values() for f_ in fl for n in ctx.own_nodes(f_))
-        if not any_store and gc_ == f"get_protocol(self.{sa_['version']} or '1.4')" and norm(setp[0].args[0]) == "self.protocol" and [id(x) for x in ast.walk(init.node)].index(id(setp[0])) > -1 and _stmt_index(init.node, setp[0]) > _stmt_index(init.node, ver[0]):
+        if not any_store and (gc_ == f"get_protocol(self.{sa_['version']} or '1.4')" or _protocol_when_version_none(ctx, gw, getter, sa_["version"]) == "1.4") and (norm(setp[0].args[0]) == "self.protocol" or (isinstance(setp[0].args[0], ast.Call) and isinstance(setp[0].args[0].func, ast.Attribute) and norm(setp[0].args[0].func.value) == "self" and not setp[0].args[0].args and _protocol_when_version_none(ctx, gw, gw.find_method(setp[0].args[0].func.attr), sa_["version"]) == "1.4")) and _stmt_index(init.node, setp[0]) > _stmt_index(init.node, ver[0]):
             derived = ok = True
     if ok and derived:
         chk.ok(rule, f"{init.fq}::initial protocol", "version = None, the protocol property derives get_protocol(version or '1.4'), schema set to it", init.where)
